@@ -392,7 +392,7 @@ func init() {
 				case "RW.RANGEDISPATCH":
 					return strings.HasPrefix(o.Construct, "range statement that is not an element")
 				case "OPT.ORDER":
-					return o.Construct == "file using seq" || o.Construct == "second file using seq"
+					return o.Construct == "file using seq" || o.Construct == "second file using seq" || strings.HasPrefix(o.Construct, "a file is chosen for writing")
 				case "RW.ALLFILES":
 					return o.Construct == "file using the API"
 				case "RW.FILEPASSES":
@@ -617,7 +617,7 @@ func init() {
 				case "DET.TMP":
 					return strings.HasPrefix(o.Construct, "GoGen")
 				case "OPT.ORDER": // exactly one derived file per source file that uses the API
-					return o.Construct == "file not using seq" || o.Construct == "file using seq" || o.Construct == "second file using seq"
+					return o.Construct == "file not using seq" || o.Construct == "file using seq" || o.Construct == "second file using seq" || strings.HasPrefix(o.Construct, "a file is chosen for writing")
 				}
 				return true
 			})
